@@ -32,6 +32,20 @@ type N = map[string]any
 func evalWorker(req N) N {
 	src := req["src"].(string)
 	obs := run.Eval(src, run.EvalOpts{})
+	if routes, _ := req["routes"].(bool); routes && (obs["k"] == "ok" || obs["k"] == "raise") {
+		// the other host entry points must give the outcome risor.Eval gives: the first one that does not
+		// replaces the observation (and names itself in the field route)
+		key := func(o N) string {
+			b, _ := json.Marshal([]any{o["k"], o["v"], o["out"]})
+			return string(b)
+		}
+		for _, rt := range []string{"vmnew", "evalcode", "withvm", "runcode"} {
+			if o := run.EvalRoute(src, rt); key(o) != key(obs) {
+				obs = o
+				break
+			}
+		}
+	}
 	if m, ok := obs["msg"].(string); ok {
 		obs["msgcps"] = run.Cps(m)
 	}
@@ -158,10 +172,13 @@ func main() {
 	}
 }
 
+// observeRoutes: evaluate every case through all host entry points (flag -routes of gen / render)
+var observeRoutes bool
+
 func observe(cases []N) {
 	reqs := make([]N, len(cases))
 	for i, c := range cases {
-		reqs[i] = N{"src": c["src"]}
+		reqs[i] = N{"src": c["src"], "routes": observeRoutes}
 		if a, ok := c["ast"]; ok {
 			norm, _ := json.Marshal(ast.Norm(a))
 			reqs[i]["norm"] = string(norm)
@@ -186,6 +203,7 @@ func gen(args []string) {
 	closure := fs.Bool("closure", false, "")
 	maplit := fs.Bool("maplit", false, "")
 	illscoped := fs.Int("illscoped", 0, "one in N statements is a scope probe")
+	fs.BoolVar(&observeRoutes, "routes", false, "evaluate through every host entry point")
 	out := fs.String("out", "cases.ndjson", "")
 	noobs := fs.Bool("noobs", false, "")
 	fs.Parse(args)
@@ -267,6 +285,10 @@ func rerun(args []string) {
 	for _, c := range rows {
 		if want[int(c["id"].(float64))] {
 			sel = append(sel, c)
+			// a case whose recorded observation came from another host entry point is re-executed through all of them
+			if o, ok := c["obs"].(map[string]any); ok && o["route"] != nil {
+				observeRoutes = true
+			}
 		}
 	}
 	observe(sel)
